@@ -370,7 +370,7 @@ func TestC11(t *testing.T) {
 			case 1:
 				return &ref.ANode{Kind: "var", S: varGen.Draw(t, "var")}
 			case 2:
-				return &ref.ANode{Kind: "un", Op: rapid.SampledFrom(c11Unops).Draw(t, "unop"), A: treeGen(d - 1).Draw(t, "a")}
+				return &ref.ANode{Kind: "un", Op: rapid.SampledFrom(c11Unops).Draw(t, "unop"), A: treeGen(d-1).Draw(t, "a")}
 			case 3:
 				lv := varGen.Draw(t, "lv")
 				if rapid.IntRange(0, 15).Draw(t, "nonlvalue") == 0 {
@@ -378,15 +378,15 @@ func TestC11(t *testing.T) {
 				}
 				return &ref.ANode{Kind: rapid.SampledFrom([]string{"preinc", "predec", "postinc", "postdec"}).Draw(t, "incdec"), S: lv}
 			case 4:
-				return &ref.ANode{Kind: "cond", A: treeGen(d - 1).Draw(t, "a"), B: treeGen(d - 1).Draw(t, "b"), C: treeGen(d - 1).Draw(t, "c")}
+				return &ref.ANode{Kind: "cond", A: treeGen(d-1).Draw(t, "a"), B: treeGen(d-1).Draw(t, "b"), C: treeGen(d-1).Draw(t, "c")}
 			case 5:
 				lv := varGen.Draw(t, "lv")
 				if rapid.IntRange(0, 15).Draw(t, "nonlvalue") == 0 {
 					lv = "2"
 				}
-				return &ref.ANode{Kind: "asg", Op: rapid.SampledFrom(c11Asgops).Draw(t, "asgop"), S: lv, A: treeGen(d - 1).Draw(t, "a")}
+				return &ref.ANode{Kind: "asg", Op: rapid.SampledFrom(c11Asgops).Draw(t, "asgop"), S: lv, A: treeGen(d-1).Draw(t, "a")}
 			default:
-				return &ref.ANode{Kind: "bin", Op: rapid.SampledFrom(c11Binops).Draw(t, "binop"), A: treeGen(d - 1).Draw(t, "a"), B: treeGen(d - 1).Draw(t, "b")}
+				return &ref.ANode{Kind: "bin", Op: rapid.SampledFrom(c11Binops).Draw(t, "binop"), A: treeGen(d-1).Draw(t, "a"), B: treeGen(d-1).Draw(t, "b")}
 			}
 		})
 	}
